@@ -36,6 +36,8 @@ type c01Case struct {
 	RemoteSample int `json:"remote_sample"`
 	// SharedTmp: scratch directory (under the run's root) shared with another case that runs at the same time
 	SharedTmp string `json:"shared_tmp,omitempty"`
+	// CancelIndex: the indexer runs with an already cancelled context
+	CancelIndex bool `json:"cancel_index,omitempty"`
 }
 
 func c01Cases(seed int64) []c01Case {
@@ -96,7 +98,7 @@ func c01RunCase(rec *ev.Recorder, c c01Case, root string) {
 	if c.SharedTmp != "" {
 		tmpDir = filepath.Join(root, c.SharedTmp)
 	}
-	fx, indexErr, err := vfMakeEpochTmp(dir, o, false, tmpDir)
+	fx, indexErr, err := vfMakeEpochOpt(dir, o, false, tmpDir, c.CancelIndex)
 	if err != nil {
 		rec.Inconclusive(fmt.Sprintf("%s: fixture: %v", c.Name, err))
 		return
@@ -113,6 +115,17 @@ func c01RunCase(rec *ev.Recorder, c c01Case, root string) {
 			return
 		}
 		m = fx.Model
+	}
+	if c.CancelIndex {
+		// an index run whose context was cancelled: refusing is right; reporting success is right only if
+		// every lookup below resolves
+		if indexErr != "" {
+			rec.Eval(1)
+			rec.Count("cancelled_index_runs_that_reported_the_error", 1)
+			rec.Distinct("cancelled-index/" + c.Name)
+			return
+		}
+		rec.Count("cancelled_index_runs_that_reported_success", 1)
 	}
 	if indexErr != "" {
 		rec.Violation("index-all/fails-on-well-formed-car", fmt.Sprintf("%s: %s", c.Name, indexErr), c)
@@ -261,6 +274,48 @@ func c01RunCase(rec *ev.Recorder, c c01Case, root string) {
 				}
 			}
 		}
+		// fetch first, look later: the bytes a fetch returned must still be the object's bytes after further
+		// fetches have been made (a result that aliases a reused buffer changes under the caller's hands)
+		{
+			const window = 64
+			type held struct {
+				i   int
+				got []byte
+			}
+			var hold []held
+			nBad, nHeld := 0, 0
+			firstBad := ""
+			flush := func() {
+				for _, h := range hold {
+					if !bytes.Equal(h.got, m.Sections[h.i].Data) {
+						nBad++
+						if firstBad == "" {
+							firstBad = fmt.Sprintf("section %d cid %s: %d bytes held, differ from the %d stored bytes", h.i, m.Sections[h.i].Cid, len(h.got), len(m.Sections[h.i].Data))
+						}
+					}
+				}
+				hold = hold[:0]
+			}
+			for i, s := range m.Sections {
+				if sample > 1 && i%sample != 0 {
+					continue
+				}
+				got, err := ep.GetNodeByCid(ctx, s.Cid)
+				if err != nil {
+					continue // judged by the sweep above
+				}
+				hold = append(hold, held{i, got})
+				nHeld++
+				if len(hold) == window {
+					flush()
+				}
+			}
+			flush()
+			rec.Eval(nHeld)
+			if nBad > 0 {
+				rec.Violation(mode+"/cid-lookup/bytes-change-after-later-fetches", fmt.Sprintf("%s: %d of %d fetched objects no longer held their bytes after up to %d further fetches; first: %s", c.Name, nBad, nHeld, window, firstBad), c)
+			}
+		}
 		// concurrent fetches: the same lookups from 8 goroutines at once (a reader shared between requests,
 		// e.g. a seekable data reader, only shows when two fetches are in flight)
 		{
@@ -357,6 +412,14 @@ func TestVerifC01(t *testing.T) {
 		}()
 	}
 	wg.Wait()
+	// index runs whose context is cancelled (an early SIGINT): an error, or complete indexes - never success
+	// with lookups missing
+	if !ev.LoadReplay(&rc) && os.Getenv("VERIF_RACE") == "" {
+		for k := 0; k < ev.Pick(2, 8) && !rec.Enough(); k++ {
+			o := cargen.Opts{Epoch: uint64(60 + k), Seed: ev.Seed()*131 + int64(k), NSlots: 30 + 200*k, SkipOneIn: 4, MaxEntries: 2, MaxTx: 3, MultiFrameOneIn: 6, VoteOneIn: 4, FailOneIn: 4}
+			c01RunCase(rec, c01Case{Name: fmt.Sprintf("cancelled-%d", k), Opts: o, CancelIndex: true}, root)
+		}
+	}
 	// two CARs of the same epoch number (think of two networks, or two attempts) indexed at the same time by
 	// two `index` processes that were given the same scratch directory: each run must still come out complete
 	if !ev.LoadReplay(&rc) {
